@@ -31,7 +31,7 @@ CHECKS = {
     "C10": (False, "per-kind outcome tables of the renderer callbacks (HTX-KIND/PAIR) against the documented mapping, text provenance, write-effect analysis of the read path, block-join provenance",
             "Structural parts of canonical serialisation: for every node kind and configuration the sequence of tags/constants/dynamic classes emitted equals the documented mapping and pre/post are paired; dynamic text comes from the visited node's accessors and is escaped; rendering writes only call-local memory and has no nondeterminism source; Render joins AppendBlock results with the blank-line separator in slice order. Byte-for-byte equality with an independent serialiser is not decided.",
             "oracle tables transcribed from doc comments and the CommonMark HTML mapping; EFF external-callee table"),
-    "C11": (False, "data-dependence rule on the opener-search cache key (EMPH-K) and saved-index staleness path rule (EMPH-S)",
+    "C11": (True, "data-dependence rule on the opener-search cache key (EMPH-K) and saved-index staleness path rule (EMPH-S)",
             "Two necessary conditions for the openers_bottom optimisation to be behaviour-preserving: the cache key depends on every closer field the match predicate reads, and saved stack indices are re-based on every path that deletes stack entries inside the closer loop. The algorithm's result itself is value-level and not decided.",
             "go/ssa def-use; the match predicate's read set is derived from its SSA"),
     "C12": (True, "SSA dominance/provenance rules: first-wins guard, match-before-reference, single normaliser, two-pass order, document-order traversal",
